@@ -63,7 +63,7 @@ func init() {
 	core.Register(&core.Check{
 		Spec: core.Spec{
 			Prop:        "C01",
-			Rule:        "Random multi-node scenarios (1-5 real nodes; proposals valid and overdrawing at boundary amounts; harness-sealed vertices on tips, stale and equal parents; replays; concurrent proposal blocks; trusted sealers; delayed/partitioned delivery; orphan retries). After every operation the node is snapshotted; every vertex that became confirmed (declared as parent by a live vertex, or checkpointed) is evaluated once with big integers: inflow(issuer) over its full-history ancestors plus the checkpoint must cover its other spends there plus its amount (trusted-sealed, genesis, non-spice exempt). Dropped tips must lose their index entry. Non-trivial = confirmation whose issuer has other spends in that history or whose margin is below the amount, and every dropped tip; distinct by (operation, validation path, verdict, amount class, prior spends).",
+			Rule:        "Random multi-node scenarios (1-5 real nodes; proposals valid and overdrawing at boundary amounts; harness-sealed vertices on tips, stale and equal parents; replays; concurrent proposal blocks; trusted sealers; delayed/partitioned delivery; orphan retries). After every operation the node is snapshotted; every vertex that became confirmed (declared as parent by a live vertex, or checkpointed) is evaluated once with big integers: inflow(issuer) over its full-history ancestors plus the checkpoint must cover its other spends there plus its amount (trusted-sealed, genesis, non-spice exempt). Dropped tips must lose their index entry. Fixed scenarios in every run: the witness of the known finding (double spend checkpointed, then a fresh spend); a 1040-vertex chain with two side tips on the 5th vertex (one overdrawing, one covered) whose parents get checkpointed, then proposals (a tip that is a root of the live graph must still pass the funds test); a truncation cancelled half way followed by further attempts and overdrawing traffic. Non-trivial = confirmation whose issuer has other spends in that history or whose margin is below the amount, and every dropped tip; distinct by (operation, validation path, verdict, amount class, prior spends).",
 			Assumptions: []string{ledgerAssume},
 			MinEvals:    300, MinNontriv: 10,
 		},
@@ -82,7 +82,7 @@ func init() {
 	core.Register(&core.Check{
 		Spec: core.Spec{
 			Prop:        "C03",
-			Rule:        "Same scenario engine with replay emphasis (same vertex again, same transaction proposed again, same transaction re-wrapped by another sealer, duplicates in concurrent proposal blocks and concurrent deliveries). After every operation: no transaction hash in two vertices (live + checkpointed), no vertex both live and checkpointed, transaction index is a bijection onto the held transactions; at most one of several concurrent proposals of one transaction succeeds. Non-trivial = replay attempts and concurrent duplicate blocks; distinct by (replay kind, node count, checkpoint present, block size).",
+			Rule:        "Same scenario engine with replay emphasis (same vertex again, same transaction proposed again, same transaction re-wrapped by another sealer, duplicates in concurrent proposal blocks and concurrent deliveries). After every operation: no transaction hash in two vertices (live + checkpointed), no vertex both live and checkpointed, transaction index is a bijection onto the held transactions; at most one of several concurrent proposals of one transaction succeeds. After every scenario the peer's own stream, extended by a second validly signed vertex of another sealer that wraps a transaction already in the stream (first or last in stream order), is loaded in to a fresh node: it must not hold the transaction twice and its index must point at the holder. Non-trivial = replay attempts and concurrent duplicate blocks; distinct by (replay kind, node count, checkpoint present, block size).",
 			Assumptions: []string{ledgerAssume},
 			MinEvals:    300, MinNontriv: 10,
 		},
@@ -95,7 +95,7 @@ func init() {
 	core.Register(&core.Check{
 		Spec: core.Spec{
 			Prop:        "C09",
-			Rule:        "Same scenario engine. After every operation the snapshot must be a well-formed DAG: declared-parent graph acyclic (Kahn); every live non-genesis vertex has an edge from each distinct declared parent that is live and from nothing else; a declared parent that is not live is checkpointed; graph id = storage key = vertex hash; hash, sealing, issuer and receiver signatures recompute (harness's own rendering and the node's own verify). Every vertex returned by CreateLeaf references tips of the previous snapshot that survived the call and has weight max(parents)+1; a failed add leaves no new vertex or index entry. One batch runs a two-node 1060-vertex ledger through a truncation and 60 hostile operations afterwards (weights above 1000, checkpointed parents). Non-trivial = every snapshot after a mutating operation; distinct by (operation, outcome, tip/live/parked buckets).",
+			Rule:        "Same scenario engine. After every operation the snapshot must be a well-formed DAG: declared-parent graph acyclic (Kahn); every live non-genesis vertex has an edge from each distinct declared parent that is live and from nothing else; a declared parent that is not live is checkpointed; graph id = storage key = vertex hash; hash, sealing, issuer and receiver signatures recompute (harness's own rendering and the node's own verify). Every vertex returned by CreateLeaf references tips of the previous snapshot that survived the call and has weight max(parents)+1; a failed add leaves no new vertex or index entry. One batch runs a two-node 1060-vertex ledger through a truncation and 60 hostile operations afterwards (weights above 1000, checkpointed parents); another cancels a truncation in the middle of its persisting walk and lets further truncations follow. Non-trivial = every snapshot after a mutating operation; distinct by (operation, outcome, tip/live/parked buckets).",
 			Assumptions: []string{ledgerAssume},
 			MinEvals:    300, MinNontriv: 10,
 		},
@@ -108,7 +108,7 @@ func init() {
 	core.Register(&core.Check{
 		Spec: core.Spec{
 			Prop:        "C10",
-			Rule:        "Same scenario engine with rule-breaking offers on every entry point: issuer = proposing node's wallet (local), issuer = sealer for gossiped vertices (also sealed by a wallet that is itself a node), issuer = genesis wallet, transactions with neither data nor spice, each also delivered before its parent and replayed from the orphan buffer. Each forbidden offer must return an error and leave neither vertex, parked entry nor index entry; every snapshot is scanned for self-sealed / genesis-issued / empty vertices. Non-trivial = forbidden offers; distinct by (rule, entry point, node role).",
+			Rule:        "Same scenario engine with rule-breaking offers on every entry point: issuer = proposing node's wallet (local), issuer = sealer for gossiped vertices (also sealed by a wallet that is itself a node), issuer = genesis wallet, transactions with neither data nor spice, each also delivered before its parent and replayed from the orphan buffer. Each forbidden offer must return an error and leave neither vertex, parked entry nor index entry; every snapshot is scanned for self-sealed / genesis-issued / empty vertices; sync streams carrying a forbidden vertex on a tip or as a second root (zero parent hashes, zero left parent) must not yield a loaded node holding it. Non-trivial = forbidden offers; distinct by (rule, entry point, node role).",
 			Assumptions: []string{ledgerAssume},
 			MinEvals:    300, MinNontriv: 8,
 		},
